@@ -18,13 +18,13 @@ import (
 
 func c09Drivers() []concParams {
 	return []concParams{
-		{Name: "writers-vs-close", Cfg: "default/bytewise", Clients: [][]string{{"put:a", "put:b"}, {"put:b"}, {"close"}}},
+		{Name: "writers-vs-close", Cfg: "roomy/bytewise", Clients: [][]string{{"put:a", "put:b"}, {"put:b"}, {"close"}}},
 		{Name: "tr-vs-writer-vs-close", Cfg: "bigbatch/bytewise", Clients: [][]string{{"tr:+a,+b"}, {"put:a"}, {"close"}}, QB: 1, TB: 2},
 		{Name: "compact-vs-close", Cfg: "flushy/bytewise", Pre: []string{"put:a", "put:b"}, Clients: [][]string{{"put:a"}, {"cr"}, {"close"}}, QB: 1, TB: 2},
 		{Name: "readers-vs-close", Cfg: "tinycache/bytewise", Pre: []string{"put:a", "put:b", "q"}, Clients: [][]string{{"get:a", "iterscan"}, {"snapget:a,b"}, {"close"}}, QB: 1, TB: 2},
-		{Name: "writer-vs-readonly", Cfg: "default/bytewise", Clients: [][]string{{"put:a", "put:b"}, {"ro"}, {"get:a"}}},
+		{Name: "writer-vs-readonly", Cfg: "roomy/bytewise", Clients: [][]string{{"put:a", "put:b"}, {"ro"}, {"get:a"}}},
 		{Name: "two-tables-one-slot-vs-close", Cfg: "tinycache/bytewise", Pre: []string{"put:a", "put:b", "put:c", "cr", "q"}, Clients: [][]string{{"get:a", "get:c", "get:b"}, {"close"}}, QB: 2, TB: 3},
-		{Name: "close-vs-close", Cfg: "default/bytewise", Clients: [][]string{{"put:a"}, {"close"}, {"close"}}},
+		{Name: "close-vs-close", Cfg: "roomy/bytewise", Clients: [][]string{{"put:a"}, {"close"}, {"close"}}},
 	}
 }
 
@@ -38,7 +38,7 @@ func c09FaultDrivers() []concParams {
 		out = append(out, concParams{Name: name, Cfg: cfg, Pre: pre, Clients: clients, Faults: fs, QB: 1, TB: 2})
 	}
 	for nth := 1; nth <= 2; nth++ {
-		add(fmt.Sprintf("writers+journal-sync-fault#%d-vs-close", nth), "default/bytewise", nil, [][]string{{"put:a", "put:b"}, {"put:b"}, {"close"}}, f(vstor.KWrite, storage.TypeJournal, nth, 1, vstor.ModeFail))
+		add(fmt.Sprintf("writers+journal-sync-fault#%d-vs-close", nth), "roomy/bytewise", nil, [][]string{{"put:a", "put:b"}, {"put:b"}, {"close"}}, f(vstor.KWrite, storage.TypeJournal, nth, 1, vstor.ModeFail))
 		add(fmt.Sprintf("tr+manifest-sync-fault#%d-vs-writer", nth), "bigbatch/bytewise", nil, [][]string{{"tr:+a,+b"}, {"put:a"}, {"get:a"}}, f(vstor.KSync, storage.TypeManifest, nth, 3, vstor.ModeFail))
 		add(fmt.Sprintf("flush+table-create-fault#%d-vs-reader-close", nth), "flushy/bytewise", []string{"put:a"}, [][]string{{"put:a", "put:b"}, {"get:a"}, {"close"}}, f(vstor.KCreate, storage.TypeTable, nth, 1, vstor.ModeFail))
 		add(fmt.Sprintf("bigbatch+table-write-fault#%d-vs-writer", nth), "bigbatch/bytewise", nil, [][]string{{"w:+a,+b,+c"}, {"put:a"}, {"close"}}, f(vstor.KWrite, storage.TypeTable, nth, 1, vstor.ModeFail))
